@@ -25,7 +25,7 @@ var c01Roots = []string{
 
 func init() {
 	register("C01", "other", "T11 Determinism effects + T10 MapOrder over the consensus call graph, provenance (canonical iteration order), T3/T4 (re-vote after every decision)",
-		"Decides necessary conditions of order-independent agreement: (det) no function reachable from the consensus entry points inside the consensus packages (abft, election, vecengine, vecfc, pos, lachesis, adapters) draws randomness or time, starts goroutines or selects, or ranges over a map in a way that lets the iteration order reach a result — two instances fed the same events cannot diverge through these effects; the debug helpers that do range over maps are shown unreachable rather than trusted; (canon) the Atropos choice and the cheater list iterate the validator set through its canonical sorted view; (revote) after every decided, non-sealing frame the known roots are re-processed before the next root is handed to the election, Bootstrap ends with that re-processing, and the re-processing loop stops only when no further frame is decided or the epoch is sealed; between a call that reports 'sealed' (onFrameDecided, bootstrapElection) and the next live vote of the same root the 'not sealed' edge of that very result is taken; (slots) live voting and registration enumerate the same frame slots selfParentFrame+1..root.Frame() (bounds compared up to arithmetic rewriting), each vote / table record / cached-list entry is made in its own iteration for the slot (iteration's frame, root.Creator(), root.ID()), so the roots table and the cached per-frame lists that GetFrameRoots answers from hold the same slots; (forkpairs, rootorder) the two arrival-ordered lists that consensus scans are scanned position-independently: both operands of the branch-overlap test in fork detection are current elements of loops over a creator's whole branch list (followed through helper parameters), and every loop of the election over a frame's root list runs over the whole list and evaluates the forkless-cause test of each element in its own iteration. Agreement itself (same blocks for every DAG and delivery order) is a runtime fact and is not decided.",
+		"Decides necessary conditions of order-independent agreement: (det) no function reachable from the consensus entry points inside the consensus packages (abft, election, vecengine, vecfc, pos, lachesis, adapters) draws randomness or time, starts goroutines or selects, or ranges over a map in a way that lets the iteration order reach a result — two instances fed the same events cannot diverge through these effects; the debug helpers that do range over maps are shown unreachable rather than trusted; (canon) the Atropos choice and the cheater list iterate the validator set through its canonical sorted view; (revote; decided on inlined views of handleElection and Bootstrap in which only onFrameDecided and the replay routines — located by handing Store.GetFrameRoots elements to ProcessRoot — stay calls, the values of their results being followed through assignments and tests) after every decided, non-sealing frame the known roots are re-processed before the next root is handed to the election, Bootstrap ends with that re-processing, and the re-processing loop stops only when no further frame is decided or the epoch is sealed; between a call that reports 'sealed' (onFrameDecided, bootstrapElection) and the next live vote of the same root the 'not sealed' edge of that very result is taken; (slots) live voting and registration enumerate the same frame slots selfParentFrame+1..root.Frame() (bounds compared up to arithmetic rewriting), each vote / table record / cached-list entry is made in its own iteration for the slot (iteration's frame, root.Creator(), root.ID()), so the roots table and the cached per-frame lists that GetFrameRoots answers from hold the same slots; (forkpairs, rootorder) the two arrival-ordered lists that consensus scans are scanned position-independently: both operands of the branch-overlap test in fork detection are current elements of loops over a creator's whole branch list (followed through helper parameters), and every loop of the election over a frame's root list runs over the whole list and evaluates the forkless-cause test of each element in its own iteration. Agreement itself (same blocks for every DAG and delivery order) is a runtime fact and is not decided.",
 		[]string{"storage (kvdb interfaces) is a deterministic ordered map: the traversal stops at kvdb and at application callbacks", "reachability follows static calls and interface calls resolved to module methods; function-valued fields are covered by listing their targets as entry points"},
 		runC01)
 }
@@ -171,141 +171,7 @@ func runC01(c *core.Ctx) {
 		}
 	})
 
-	c.Clause("C01.revote", func() {
-		he := c.Fn("abft.Orderer.handleElection")
-		// The three steps may be written in handleElection itself or in a helper method one call down
-		// (apply the decision and re-process in one helper, say): the questions are asked from the call
-		// wherever it is made, through the helper's returns back into handleElection, where edges that
-		// contradict what the helper returned on that exit are not taken (c01DeepQuery).
-		isDecide := func(cs *core.CallSite) bool { return cs.Name == "abft.Orderer.onFrameDecided" }
-		isBoot := func(cs *core.CallSite) bool { return cs.Name == "abft.Orderer.bootstrapElection" }
-		isReplay := c01IsReplayCall
-		isVote := func(cs *core.CallSite) bool { return cs.Name == "abft/election.Election.ProcessRoot" }
-		// a decision applied inside the re-processing routine itself is followed by its own replay loop,
-		// which is judged below on bootstrapElection
-		outsideReplay := func(es []c01Effect) []c01Effect {
-			var out []c01Effect
-			for _, e := range es {
-				if e.G == he || !isReplay(e.At) {
-					out = append(out, e)
-				}
-			}
-			return out
-		}
-		decided := outsideReplay(c01Effects(he, isDecide))
-		again := he.SitesMay(isVote, 1)
-		boots := c01Effects(he, isBoot)
-		c.Need(len(decided) >= 1 && len(again) >= 1, "handleElection casts the live vote (ProcessRoot) and applies a decision (onFrameDecided)")
-		ok := len(boots) > 0
-		wit := ""
-		// The obligation concerns decisions that do not seal the epoch (a sealing one must end the voting
-		// of the root altogether, decided below): the paths asked for are those on which the 'sealed'
-		// result of that very call is not known to be true, so `if !sealed { replay }; if sealed { leave }`
-		// is read like `if sealed { leave }; replay`.
-		for _, d := range decided {
-			if found, _, w := (c01DeepQuery{Via: isReplay, Tgt: isVote, Track: 0, Neg: true}).from(d); found {
-				ok, wit = false, w
-			}
-		}
-		c.Check(ok, "known roots are re-processed after a decision before the next root votes", "T3 PostDominates (loop)", decided[0].Eff.Pos(), "every path from a non-sealing onFrameDecided back to ProcessRoot passes bootstrapElection()", "after a frame is decided the election can continue with the next root without re-processing the known roots of the new frame (instances that received events in another order decide differently): "+wit)
-		// A decision that seals the epoch resets the election to the new epoch's validators and first
-		// frame. The remaining frame slots of the current root belong to the old epoch: if one of them is
-		// still voted, the new election is fed a root of another epoch. Whether that happens depends on
-		// which root happened to trigger the decision, i.e. on the delivery order. So between a call that
-		// reports 'sealed' and the next live vote, the 'not sealed' edge of that very result must be taken.
-		nSeal := 0
-		for _, e := range outsideReplay(c01Effects(he, func(cs *core.CallSite) bool { return isDecide(cs) || isBoot(cs) })) {
-			nSeal++
-			cs := e.Eff
-			key := "a sealing decision ends the voting of the current root (" + short(cs.Name) + ")"
-			// targets: the next live vote, or a point where the variable holding the result is overwritten
-			// (a test of the variable after that point speaks about another call); a helper hands the
-			// result on as its own result, whose variable in handleElection is then followed
-			found, discarded, w := (c01DeepQuery{Tgt: isVote, Track: 0}).from(e)
-			if discarded {
-				c.Fail(key, "T4 GuardedBy (reaching definition)", cs.Pos(), "the 'sealed' result of "+short(cs.Name)+" is discarded in "+short(e.G.Name)+": after a decision that seals the epoch the loop goes on feeding the remaining frame slots of the old epoch's root into the new epoch's election (the instance that decided through this root fails or diverges, others do not)")
-				continue
-			}
-			c.Check(!found, key, "T4 GuardedBy (reaching definition)", cs.Pos(), "every path from the call to the next ProcessRoot takes the edge on which its 'sealed' result is false", "after "+short(cs.Name)+" reported that the epoch was sealed the current root can still vote with its remaining frame slots, now in the new epoch's election ("+w+"): the instance that decided through this root fails or diverges, others do not")
-		}
-		c.ExpectAtLeast("calls in handleElection that can seal the epoch", nSeal, 2)
-		bs := c.Fn("abft.Orderer.Bootstrap")
-		// (the call itself, or a helper of Bootstrap that always makes it)
-		bb := bs.SitesMust(isBoot, 2)
-		okB := len(bb) >= 1
-		for _, rp := range bs.ReturnPoints() {
-			// only the final return (after election.New) matters: returns reachable from election.New
-			news := bs.CallsTo("abft/election.New")
-			if len(news) == 1 && bs.CanReach(news[0].Pt, rp) && !core.PointSet(bb...)(rp) {
-				if o, _ := bs.MustPassBetween(news[0].Pt, bb, rp); !o {
-					okB = false
-				}
-			}
-		}
-		c.Check(okB, "Bootstrap re-processes the known roots", "T3 PostDominates", bs.Pos(), "every return after the election is created passes bootstrapElection()", "a restarted instance does not replay the votes of stored roots")
-		be := c.Fn("abft.Orderer.bootstrapElection")
-		pk := be.CallsTo("abft.Orderer.processKnownRoots")
-		c.Need(len(pk) == 1, "bootstrapElection calls processKnownRoots")
-		dv := func() *ast.Ident {
-			var id *ast.Ident
-			be.InspectOwn(func(n ast.Node) bool {
-				if as, ok := n.(*ast.AssignStmt); ok && len(as.Rhs) == 1 && ast.Unparen(as.Rhs[0]) == ast.Expr(pk[0].Call) {
-					id, _ = as.Lhs[0].(*ast.Ident)
-				}
-				return true
-			})
-			return id
-		}()
-		c.Need(dv != nil, "decided, err := processKnownRoots()")
-		dvar := varOf(be, dv)
-		// 'not sealed, no error' is returned only when nothing more was decided
-		okStop := true
-		for _, rp := range be.ReturnPoints() {
-			r := rp.Node().(*ast.ReturnStmt)
-			if len(r.Results) == 2 && isIdentNamed(r.Results[0], "false") && core.IsNil(be.Info(), r.Results[1]) {
-				if o, _ := be.GuardedBy(rp, varNilFact(be, dvar, true)); !o {
-					okStop = false
-				}
-			}
-		}
-		// the same, independent of how the results are written (literal returns, or one exit returning
-		// accumulated results): after processKnownRoots the routine is left, without applying a decision,
-		// only over an edge that says "nothing decided" or "error"; and after a decision was applied it is
-		// left, without re-processing again, only over an edge that says "sealed" or "error"
-		od := be.CallsTo("abft.Orderer.onFrameDecided")
-		whyStop := ""
-		union := func(ms ...func(core.Fact) bool) func(core.Fact) bool {
-			return func(ft core.Fact) bool {
-				for _, m := range ms {
-					if m(ft) {
-						return true
-					}
-				}
-				return false
-			}
-		}
-		pkErr := c01ResultVar(be, pk[0].Call, 1)
-		if path, found := (core.PathQuery{F: be, From: pk[0].Pt, FromAfter: true, Avoid: core.PointSet(core.Points(od)...), TargetExit: true,
-			AvoidEdge: be.GuardEdges(union(varNilFact(be, dvar, true), varNilFact(be, pkErr, false)))}).Find(); found {
-			okStop, whyStop = false, " ("+be.DescribePath(path)+")"
-		}
-		for _, d := range od {
-			sealedV, errV := c01ResultVar(be, d.Call, 0), c01ResultVar(be, d.Call, 1)
-			if path, found := (core.PathQuery{F: be, From: d.Pt, FromAfter: true, Avoid: core.PointSet(pk[0].Pt), TargetExit: true,
-				AvoidEdge: be.GuardEdges(union(c01BoolFact(be, sealedV, true), varNilFact(be, errV, false)))}).Find(); found {
-				okStop, whyStop = false, ": after a decision that does not seal the epoch the known roots are not re-processed again ("+be.DescribePath(path)+")"
-			}
-		}
-		c.Check(okStop, "re-processing stops only when no further frame is decided", "T4 GuardedBy", be.Pos(), "bootstrapElection is left only on the decided == nil edge, a sealing decision or an error; (false, nil) is returned only on the decided == nil edge", "bootstrapElection can stop although a further frame was decided"+whyStop)
-		// a decision is applied before looping on
-		okA := len(od) == 1
-		if okA {
-			okA, _ = be.GuardedBy(od[0].Pt, varNilFact(be, dvar, false))
-			g, _ := be.MustPassBetween(pk[0].Pt, core.Points(od), pk[0].Pt)
-			okA = okA && g
-		}
-		c.Check(okA, "every decision found while re-processing is applied", "T3", be.Pos(), "each loop iteration with decided != nil calls onFrameDecided before the next processKnownRoots", "a decision found during re-processing can be dropped")
-	})
+	c01Revote(c)
 
 	c01ArrivalOrder(c)
 }
